@@ -47,27 +47,39 @@ var loopCount = 0
 var maxLoopCount = 6
 
 func BuildCallChain(funcName string, methodMap map[string][]string, diMap map[string]string) string {
+	chain, _ := buildCallChain(funcName, methodMap, diMap)
+	return chain
+}
+
+// buildCallChain also reports how many edges it wrote: a node name may hold any text
+// (the receiver of `"a -> b".length()` is recorded as "a -> b"), so the edges cannot be
+// counted from the text afterwards
+func buildCallChain(funcName string, methodMap map[string][]string, diMap map[string]string) (string, int) {
 	if loopCount > maxLoopCount {
-		return "\n"
+		return "\n", 0
 	}
 	loopCount++
 
 	if len(methodMap[funcName]) > 0 {
 		var arrayResult = ""
+		var edges = 0
 		for _, child := range methodMap[funcName] {
 			if _, ok := diMap[jpackage.GetClassName(child)]; ok {
 				child = diMap[jpackage.GetClassName(child)] + "." + jpackage.GetMethodName(child)
 			}
 			if len(methodMap[child]) > 0 {
-				arrayResult = arrayResult + BuildCallChain(child, methodMap, diMap)
+				childChain, childEdges := buildCallChain(child, methodMap, diMap)
+				arrayResult = arrayResult + childChain
+				edges = edges + childEdges
 			}
 			arrayResult = arrayResult + "\"" + escapeStr(funcName) + "\" -> \"" + escapeStr(child) + "\";\n"
+			edges++
 		}
 
-		return arrayResult
+		return arrayResult, edges
 
 	}
-	return "\n"
+	return "\n", 0
 }
 
 func (c CallGraph) AnalysisByFiles(restApis []apidomain.RestAPI, deps []core_domain.CodeDataStruct, diMap map[string]string) (string, []apidomain.CallAPI) {
@@ -81,14 +93,14 @@ func (c CallGraph) AnalysisByFiles(restApis []apidomain.RestAPI, deps []core_dom
 
 		loopCount = 0
 		chain := "\"" + restApi.HttpMethod + " " + restApi.Uri + "\" -> \"" + escapeStr(caller) + "\";\n"
-		apiCallChain := BuildCallChain(caller, methodMap, diMap)
+		apiCallChain, edges := buildCallChain(caller, methodMap, diMap)
 		chain = chain + apiCallChain
 
 		count := &apidomain.CallAPI{
 			HTTPMethod: restApi.HttpMethod,
 			Caller:     caller,
 			URI:        restApi.Uri,
-			Size:       len(strings.Split(apiCallChain, " -> ")),
+			Size:       edges + 1,
 		}
 		apiCallSCounts = append(apiCallSCounts, *count)
 
